@@ -1,7 +1,8 @@
 #!/bin/bash
 # runs every registered quick check sequentially; prints one summary line each
 cd "$(dirname "$0")/.."
-for id in $(python3 -c "import json;print(' '.join(c['property_id'] for c in json.load(open('MANIFEST.json'))['checks']))"); do
+IDS=${ORDER:-$(python3 -c "import json;print(' '.join(c['property_id'] for c in json.load(open('MANIFEST.json'))['checks']))")}
+for id in $IDS; do
   s=$(date +%s)
   out=$(bin/check $id --tier ${1:-quick} 2>&1)
   rc=$?
